@@ -128,6 +128,21 @@ func ExpectedEffects(w *World, m *Model, r *StepRec) *Expect {
 				e.settleResponse(w, pre, id, fee, hx(rc.Consumer), rc.ServiceName, hx(rq.Provider), cls)
 			}
 		}
+	case KRestart:
+		// every pending fee returns to its consumer, every unwithdrawn earning goes to its provider
+		for _, id := range sortedKeys(pre.ActiveID) {
+			rq, ok := pre.Reqs[id]
+			if !ok {
+				continue
+			}
+			if rc, ok := pre.Ctxs[hx(rq.RequestContextId)]; ok {
+				e.move(w.RequestAcc, hx(rc.Consumer), stakeOf(rq.ServiceFee))
+				e.Settled[id] = "refunded"
+			}
+		}
+		for _, en := range pre.Earned {
+			e.move(w.RequestAcc, en.Provider, en.Amount)
+		}
 	case KEndBlock:
 		// phase 1: every pending request whose expiry block this is
 		for _, ri := range m.Expiring(r.Height) {
